@@ -1,6 +1,17 @@
 from compound_common import PoolCheck, SCHEDULERS
 
 
+def members(body):
+    """-> list of (size, bare) ; a bare member has size 0"""
+    out = []
+    for m in body.split(";"):
+        w = m.split()
+        if not w:
+            continue
+        out.append((0, True) if w[0] == "b" else (int(w[0]), False))
+    return out
+
+
 def kv(obs):
     d = {}
     for w in obs.split():
@@ -16,7 +27,8 @@ class C15(PoolCheck):
     theorems = ("C15_sequential", "C15_enabled_after_previous", "C15_member_callback_after_its_tasks",
                 "C15_nothing_twice", "C15_all_exactly_once", "C15_no_stuck", "C15_steps_monotone",
                 "C15_active_taskpools", "C15_compound_after_last_fixed", "C15_compound_exactly_at_end_fixed",
-                "C15_code_compound_reported_at_add", "C15_compound_completion_refuted")
+                "C15_code_compound_reported_at_add", "C15_compound_completion_refuted",
+                "C15_model_with_bare_members_conservative")
     comp = "compound"
     extract_file = "theories/Extract/Extract_Compound.v"
     extracted = ("compound",)
@@ -39,10 +51,14 @@ class C15(PoolCheck):
     level_note = (
         "Each detector operation is one atomic step of the model (C10 covers their interleavings for reference-holding clients); "
         "tasks inside a member are independent in the model (the chains of the test taskpool only restrict the real schedule); "
-        "the model that is run against the code is the one at CompoundCode.code_precharge (false = unchanged code).")
+        "the model that is run against the code is the one at CompoundCode.code_precharge (false = unchanged code).  The "
+        "theorems quantify over PTG members of every size (0 included); bare members are in the executable model (stepB, "
+        "conservative: C15_model_with_bare_members_conservative) and are tied by the differential run and the oracle only.")
     technique = ("Coq proof (refinement to an abstract machine + invariants, all schedules) + differential run of real compositions "
                  "of generated PTG taskpools (stamped bodies, enqueue and completion callbacks) against the extracted model")
-    rule = ("compositions of 1..20 members built with parsec_compose, member = compound_pool.jdf with 0..24 tasks in 1..4 chains; "
+    rule = ("compositions of 1..20 members built with parsec_compose, member = compound_pool.jdf with 0..24 tasks in 1..4 chains or a "
+            "bare parsec_taskpool_t without any work (terminates re-entrantly inside parsec_context_add_taskpool), empty and bare "
+            "members at first / middle / last positions and in runs; "
             "modes: add/start/context_wait, start/add/taskpool_wait(compound)/context_wait, add/start/taskpool_wait/context_wait; "
             "threads 1..8, schedulers of the list; non-trivial = at least two members with tasks; distinct = member sizes + mode")
     trusted = ("harness/h_compound.c derives seq/clast/tpw from stamps of one global atomic counter; the first body executed waits "
@@ -67,7 +83,13 @@ class C15(PoolCheck):
         if mode is None:
             mode = r.pick([0, 0, 1, 2])
         ms = []
-        for _ in range(n):
+        # members without work: PTG taskpools of size 0 (terminate when their startup task is released) and bare
+        # taskpools "b" (terminate re-entrantly inside parsec_context_add_taskpool), at first / middle / last positions
+        nowork = r.pick([0, 0, 1, 2]) if n >= 2 else 0
+        for j in range(n):
+            if nowork and r.chance(1, 3 if nowork == 1 else 2):
+                ms.append(r.pick(["b", "b", "0 1"]))
+                continue
             nt = r.pick([0, 1, 1, 2, 3, r.range(4, 8), r.range(9, 24)])
             w = r.pick([1, 1, 2, 3, 4, 64])
             ms.append("%d %d" % (nt, w))
@@ -84,6 +106,10 @@ class C15(PoolCheck):
             out.append("cmp %d %s 0 0 3 | 0 1 ; 0 1 ; 0 1" % cfg)
             out.append("cmp %d %s 2 5 4 | 3 2" % cfg)
             out.append(self.one(r, cfg, n=20))
+            # bare members (re-entrant completion callback): middle, first, last, two in a row, all
+            out.append("cmp %d %s 0 0 5 | 2 1 ; b ; 3 2" % cfg)
+            out.append("cmp %d %s 2 7 6 | b ; 1 1 ; b ; b ; 2 2 ; b" % cfg)
+            out.append("cmp %d %s 1 0 7 | b ; b ; b" % cfg)
             for _ in range(per):
                 out.append(self.one(r, cfg))
         return out
@@ -94,8 +120,8 @@ class C15(PoolCheck):
 
     def nontrivial_key(self, case):
         hd, body = case.split("|", 1)
-        ms = [m.split() for m in body.split(";") if m.strip()]
-        if sum(1 for m in ms if int(m[0]) > 0) < 2:
+        ms = members(body)
+        if sum(1 for m in ms if m[0] > 0) < 2:
             return None
         return hd.split()[3] + "|" + body.strip()
 
@@ -104,13 +130,14 @@ class C15(PoolCheck):
         for c in cases:
             hd, body = c.split("|", 1)
             w = hd.split()
-            ms = [m.split() for m in body.split(";") if m.strip()]
+            ms = members(body)
             d["members_hist"][str(len(ms))] = d["members_hist"].get(str(len(ms)), 0) + 1
+            d["bare_members"] = d.get("bare_members", 0) + sum(1 for m in ms if m[1])
             d["modes"][w[3]] = d["modes"].get(w[3], 0) + 1
             d["threads"][w[1]] = d["threads"].get(w[1], 0) + 1
             d["schedulers"][w[2]] = d["schedulers"].get(w[2], 0) + 1
-            d["empty_members"] += sum(1 for m in ms if int(m[0]) == 0)
-            d["tasks_total"] += sum(int(m[0]) for m in ms)
+            d["empty_members"] += sum(1 for m in ms if m[0] == 0 and not m[1])
+            d["tasks_total"] += sum(m[0] for m in ms)
         return d
 
     # ---- the property, decided on the implementation's observation alone
@@ -118,7 +145,7 @@ class C15(PoolCheck):
         """-> (signature, message) or None"""
         hd, body = case.split("|", 1)
         mode = int(hd.split()[3])
-        sizes = [int(m.split()[0]) for m in body.split(";") if m.strip()]
+        sizes = [m[0] for m in members(body)]
         if obs.startswith("<"):
             return ("no-observation", "the run gave no observation: " + obs[:100])
         d = kv(obs)
